@@ -233,7 +233,9 @@ class C07(Check):
             "scopes; (c) one-step mutations of (b); (d) wild MRSs of 0-6 EPs: shared labels/IVs, self-scoping and "
             "dangling arguments of any sort, cyclic/dangling/duplicate hcons, top absent/label/hole; a few with an "
             "EP lacking ARG0 (outside the property's quantifier; kept for the completeness test). Each with random "
-            "label equalities for conjoin. (e) LARGE DENSE structures, the same list in every run plus 3% (thorough 1%) of "
+            "label equalities for conjoin; 30% of (b)-(d) carry 1-3 individual constraints (IV-IV, IV-argument-only "
+            "variable, unused variables, labels) and 4% of the random cases are two disjoint scope trees in one MRS related "
+            "only by icons / by a handle constraint nobody selects / by the top / by nothing. (e) LARGE DENSE structures, the same list in every run plus 3% (thorough 1%) of "
             "the random cases: cliques and near-cliques (30%/60% of the mutual arguments dropped, spanning ring kept) of "
             "8/12/16/24 (thorough also 32/40) predications sharing one label or not, each with a private modifier "
             "predication; 10/16/20/30 (45) labels equated as complete graph / chain with chords / star / ring / two "
@@ -440,6 +442,34 @@ class C07(Check):
                    ep("_B", 1, [a0("e", 2), ["ARG1", ["e", 1]]]),
                    ep("_D", 6, [a0("x", 4)]), ep("_E", 6, [a0("e", 7), ["ARG1", ["x", 4]]])], [(0, "qeq", 1)])
 
+        # (iv) individual constraints are not edges: inside one component; between two otherwise
+        # disconnected components (IV-IV, IV-argument-only variable, unused variables); mentioning labels;
+        # a handle constraint nobody selects whose lo is a label of the other component; top qeq to the
+        # component that is not otherwise reachable
+        def with_icons(case, icons, extra_hcons=(), top_lo=None):
+            case["m"]["icons"] = [[list(a), r, list(b)] for a, r, b in icons]
+            case["m"]["hcons"] += [[["h", a], r, ["h", b]] for a, r, b in extra_hcons]
+            if top_lo is not None:
+                case["m"]["hcons"][0][2] = ["h", top_lo]
+            return case
+
+        def two_islands():
+            return mrs([ep("_a", 1, [a0("e", 1)]), ep("_b", 1, [a0("e", 2), ["ARG1", ["e", 1]]]),
+                        ep("_c", 3, [a0("e", 3), ["ARG1", ["x", 8]]]), ep("_d", 3, [a0("x", 4), ["ARG1", ["e", 3]]])],
+                       [(0, "qeq", 1)])
+        yield with_icons(mrs([ep("_a", 1, [a0("e", 1)]), ep("_b", 1, [a0("e", 2), ["ARG1", ["e", 1]]])],
+                             [(0, "qeq", 1)]), [(("e", 1), "topic", ("e", 2))])
+        yield two_islands()
+        yield with_icons(two_islands(), [(("e", 1), "topic", ("e", 3))])
+        yield with_icons(two_islands(), [(("x", 4), "focus", ("e", 2)), (("e", 2), "focus", ("x", 4))])
+        yield with_icons(two_islands(), [(("e", 1), "topic", ("x", 8))])                    # IV - argument-only variable
+        yield with_icons(two_islands(), [(("e", 1), "topic", ("x", 9)), (("x", 9), "topic", ("e", 3))])   # via unused
+        yield with_icons(two_islands(), [(("h", 1), "topic", ("h", 3))])                    # labels
+        yield with_icons(two_islands(), [], extra_hcons=[(7, "qeq", 3)])                    # dangling hi, lo = other label
+        yield with_icons(two_islands(), [], extra_hcons=[(7, "qeq", 3), (7, "qeq", 1)])
+        yield with_icons(two_islands(), [], top_lo=3)                                        # top selects the other island
+        yield with_icons(two_islands(), [(("e", 2), "topic", ("e", 3))], extra_hcons=[(7, "qeq", 3)], top_lo=3)
+
         # DMRS: equal-comparing nodes, parallel / cyclic / self EQ links, scopal cycles, dangling links
         def node(i, pred="_dog_n_1", typ="x", props=()):
             return {"id": i, "pred": pred, "type": typ, "props": [list(p) for p in props], "carg": None,
@@ -531,20 +561,30 @@ class C07(Check):
         for _ in range(n):
             r = rng.random()
             if kinds:
-                r = rng.choice([{"tree": 0.1, "mut": 0.4, "wild": 0.6, "dmrs": 0.9}.get(k, 2.0) for k in kinds])
+                r = rng.choice([{"tree": 0.1, "mut": 0.4, "wild": 0.6, "dmrs": 0.9, "islands": 0.1}.get(k, 2.0) for k in kinds])
             if r > 1.0 or (not kinds and rng.random() < self.big_share):
                 yield self.random_big(rng)
                 continue
+            if not kinds and rng.random() < 0.04:
+                m = semgen.gen_mrs_islands(rng)
+                yield {"kind": "mrs", "src": "islands", "m": m, "leqs": semgen.gen_leqs(rng, m)}
+                continue
             if r < 0.3:
                 m = semgen.gen_mrs_tree(rng)
+                if rng.random() < 0.3:
+                    m = semgen.add_icons(rng, m)
                 yield {"kind": "mrs", "src": "tree", "m": m, "leqs": semgen.gen_leqs(rng, m)}
             elif r < 0.5:
                 m = semgen.gen_mrs_tree(rng)
                 for _ in range(rng.choice([1, 1, 2])):
                     m = semgen.mutate_mrs(rng, m)
+                if rng.random() < 0.3:
+                    m = semgen.add_icons(rng, m)
                 yield {"kind": "mrs", "src": "mut", "m": m, "leqs": semgen.gen_leqs(rng, m)}
             elif r < 0.78:
                 m = semgen.gen_mrs_wild(rng, allow_missing_iv=rng.random() < 0.1)
+                if rng.random() < 0.3:
+                    m = semgen.add_icons(rng, m)
                 yield {"kind": "mrs", "src": "wild", "m": m, "leqs": semgen.gen_leqs(rng, m)}
             elif r < 0.97:
                 yield {"kind": "dmrs", "src": "dmrs", "d": semgen.gen_dmrs(rng)}
@@ -555,7 +595,7 @@ class C07(Check):
 
     def search_cases(self, rng, tier, n, seeds):
         kinds = sorted({c.get("src") for c in seeds if c.get("src") in
-                        ("tree", "mut", "wild", "dmrs", "big-clique", "big-conjoin", "big-dmrs", "big-chain", "big-star")})
+                        ("tree", "mut", "wild", "dmrs", "islands", "big-clique", "big-conjoin", "big-dmrs", "big-chain", "big-star")})
         for c in seeds[:20]:
             if c["kind"] == "mrs":
                 for _ in range(20):
@@ -1071,6 +1111,10 @@ class C07(Check):
             his = [canon(h[0]) for h in m["hcons"]]
             if len(set(his)) != len(his):
                 inc("mrs:duplicate-hi")
+            if m.get("icons"):
+                inc("mrs:icons")
+                if not res["connected"]:
+                    inc("mrs:icons-on-disconnected")
             if len({canon(i) for i in res["ids"]}) != len(res["ids"]):
                 inc("mrs:out-of-space: colliding EP ids (id-based clauses not judged, model answers unmodelled)")
             if any(not any(r == "ARG0" for r, _ in e["args"]) for e in m["rels"]):
